@@ -550,3 +550,12 @@ for _p in ("C13", "C15"):
                                 "accepting bytes that a writer waiting for a pool buffer holds none, so writers never wait only for each other (the "
                                 "old batching rule is disproved by a 10-step witness); the shape of the batch-filling loop (try_acquire, no await, buffer "
                                 "before dequeue, MAX_IOVS) is regenerated from the source on every run.")
+
+
+# C19: operation order of the pool regenerated from the source (table obligation) + multi-thread stress on the real pool
+PROPS["C19"]["theorems"] = ["Narwhal.Theorems.C19", "Narwhal.Theorems.C19Table"]
+PROPS["C19"]["expect_theorems"] = list(PROPS["C19"]["expect_theorems"]) + ["Narwhal.Pool.pool_table_ok"]
+PROPS["C19"]["suites"]["pool_mt"] = {"kind": "oracle", "nvh_suite": "pool_mt", "cases": {"quick": 16, "thorough": 600}, "oracle_tags": ["C19"]}
+PROPS["C19"]["level_text"] += (" The order of semaphore and queue operations the micro-step model assumes (permit before pop in acquire and "
+                               "try_acquire, push before permits in release_buffers, no unsafe) is read from pool.rs on every run; the pool_mt suite "
+                               "stresses the real pool with 6 threads (exclusive stamps, no panic, everything back, capacity re-acquirable).")
